@@ -113,18 +113,57 @@ def ensure_gen_built() -> str | None:
     return None
 
 
-def run_driver_parallel(lines: list[str], procs: int) -> list[str]:
+def run_driver_parallel(lines: list[str], procs: int, timeout: int = 3600) -> list[str]:
     """The driver of C18 is stateless (one independent request per line) and interpreted: long batches are cut into
-    `procs` contiguous chunks answered by as many driver processes; the answers keep the order of the lines."""
+    `procs` contiguous chunks answered by as many driver processes; the answers keep the order of the lines.
+
+    No thread and no pipe: the model is built once under the shared lock (as `common.run_lean_driver` does), then each
+    driver process reads its chunk from a file and writes its answers to a file; a driver that does not finish is
+    killed and reported as an error of the machinery (exit 2), never as a verdict.
+    """
     if procs <= 1 or len(lines) < 200:
         return common.run_lean_driver(PID, lines)
-    from concurrent.futures import ThreadPoolExecutor
+    import shutil
+    import tempfile
 
+    for ln in lines:
+        if "\n" in ln:
+            raise ValueError("protocol line contains a newline")
+    with common.lake_lock():
+        b = common._run(["lake", "build", f"GemseoVerif.Model.{PID}"], common.LEAN_DIR)
+    if b.returncode != 0:
+        raise RuntimeError("model build failed:\n" + (b.stdout + b.stderr)[-3000:])
     size = (len(lines) + procs - 1) // procs
     chunks = [lines[i : i + size] for i in range(0, len(lines), size)]
-    with ThreadPoolExecutor(max_workers=len(chunks)) as ex:
-        parts = list(ex.map(lambda c: common.run_lean_driver(PID, c), chunks))
-    return [a for part in parts for a in part]
+    tmp = tempfile.mkdtemp(prefix="c18-driver-")
+    running = []
+    try:
+        for i, chunk in enumerate(chunks):
+            with open(f"{tmp}/in{i}", "w") as fh:
+                fh.write("\n".join(chunk) + "\n")
+            fin, fout, ferr = open(f"{tmp}/in{i}"), open(f"{tmp}/out{i}", "w"), open(f"{tmp}/err{i}", "w")
+            proc = subprocess.Popen(
+                ["lake", "env", "lean", "--run", f"Driver/{PID}.lean"], cwd=common.LEAN_DIR, stdin=fin, stdout=fout, stderr=ferr, close_fds=True
+            )
+            running.append((proc, fin, fout, ferr))
+        answers: list[str] = []
+        for i, (proc, fin, fout, ferr) in enumerate(running):
+            try:
+                rc = proc.wait(timeout=timeout)
+            finally:
+                for fh in (fin, fout, ferr):
+                    fh.close()
+            out = open(f"{tmp}/out{i}").read().splitlines()
+            if rc != 0 or len(out) != len(chunks[i]):
+                raise RuntimeError(f"lean driver failed (exit {rc}, {len(out)} answers for {len(chunks[i])} lines):\n" + open(f"{tmp}/err{i}").read()[-2000:])
+            answers.extend(out)
+        return answers
+    finally:
+        for proc, *_ in running:
+            if proc.poll() is None:
+                proc.kill()
+                proc.wait()
+        shutil.rmtree(tmp, ignore_errors=True)
 
 
 class Corr:
